@@ -43,3 +43,16 @@ package common
 //@ func IsValidHttpMethod
 //@   vpure
 //@   ensures result ==> len(method) >= 3 && len(method) <= 8
+
+// C12 (MAC conditions): a MAC is six ':'-separated fields, each exactly one hex byte, stored in order;
+// anything else is an error.
+//@ func ParseMac
+//@   dyncalls noeffect
+//@   modifies *
+//@   at call strings.SplitN#1 assert a0 == mac && a1 == ":" && a2 == 6
+//@   at call hex.DecodeString#1 assert a0 == fields[$idx] && len(fields) == 6
+//@   at return 1 assert len(fields) != 6
+//@   at return 3 assert len(v) != 1
+//@   at return 4 assert err == nil && len(fields) == 6
+//@   loop 1
+//@     invariant len(fields) == 6
